@@ -56,6 +56,19 @@ def cases(tier, seed):
         for vs in itertools.product(["ok", "block"], repeat=m * 3):
             i += 1
             yield dict(_mk("v2", "v2", m, 3, vs, "o%d" % i), id=i)
+    # directed: per-call options that switch categories off in ONE call (also on predefined-message turns), both
+    # ways of carrying the conversation (resent message list / state object); every later turn is still checked
+    OPTS = [None, {"rails": {"output": False}}, {"rails": {"input": False}}, {"rails": {"input": True, "output": True, "dialog": True, "retrieval": True}}]
+    for mode in ("dialog", "single_call"):
+        for api in ("messages", "state"):
+            for kinds in (["fixed", "llm", "llm"], ["llm", "fixed", "llm"], ["fixed", "fixed", "llm"]):
+                for o0 in OPTS:
+                    for o1 in (None, {"rails": {"output": False}}):
+                        for v in ("block", "rewrite"):
+                            i += 1
+                            c = _mk("v1", mode, 1, 3, ["ok" if kinds[t] == "fixed" else v for t in range(3)], "d%d" % i, kinds=kinds)
+                            c.update(opts=[o0, o1, None], api=api)
+                            yield dict(c, id=i)
     rng = random.Random(99 + seed)
     n1, n2 = (400, 50) if tier == "quick" else (6000, 600)
     for _ in range(n1):
